@@ -36,6 +36,7 @@ ENCODED = [
     "menelaus.data_drift.histogram_density_method:HistogramDensityMethod.reset",
     "menelaus.data_drift.nndvi:NNDVI.update",
     "menelaus.data_drift.pca_cd:PCACD.update",
+    "menelaus.detector:DriftDetector.update", "menelaus.detector:DriftDetector.reset",
 ]
 BOUNDS = {
     "quick": "S (one inductive step from an arbitrary invariant state, history length unbounded): DDM, EDDM, PageHinkley with "
@@ -49,7 +50,7 @@ BOUNDS = {
                 "kdq window<=3, HDM N<=6(7), PCACD window in {2,3}",
 }
 OUTSIDE = ("histories longer than N for the B-shaped detectors; IEEE rounding / NaN for the S-shaped steps (exact real "
-           "arithmetic); MD3 (its lifecycle is decided by the C19 check)")
+           "arithmetic); MD3 is covered through the C19 protocol harness (call sequences of length <=4)")
 ASSUMPTIONS = [
     "S steps: pre-state satisfies the stated representation invariant (0<=since<=total, recs inside the current epoch, "
     "alarms only after warm-up); the invariant is itself proved inductive on every path",
@@ -491,6 +492,11 @@ def jobs(tier):
                 out.append(Job(f"pcacd-w{w}-{metric}-scale{int(osc)}", "checks.c01:body_pcacd",
                                {"N": 4 * w + 2, "cfg": {"window_size": w, "metric": metric, "online_scaling": osc}},
                                expect=("after-drift", "state-drift")))
+    # MD3 (DriftDetector base: total_updates / updates_since_reset): the protocol harness of C19 also proves the
+    # counters, the state domain and that drift is only reported on the required-th oracle label
+    for first in (["update", "oracle"], ["update", "update"], ["oracle", "update"]):
+        out.append(Job(f"md3-{'.'.join(first)}", "checks.c19:body_protocol",
+                       {"length": 4, "first_ops": first, "explicit_len": True}, opts={"validate": 1}))
     for mb in (1, 2):
         out.append(Job(f"adwinacc-hist-mb{mb}", "checks.c01:body_history",
                        {"det": "ADWINAccuracy", "N": 7 if q else 9,
